@@ -28,6 +28,7 @@ type wRes struct {
 	Out   string `json:"out"`
 	Alloc uint64 `json:"alloc"` // runtime.MemStats.TotalAlloc delta
 	Ms    int64  `json:"ms"`
+	Us    int64  `json:"us"` // the same duration in microseconds (0 when the parent measured it)
 	Panic string `json:"panic,omitempty"`
 }
 
@@ -72,7 +73,8 @@ func runWorkerOp(req wReq) (res wRes) {
 		}()
 		res.Class, res.Out = f(req.Args)
 	}()
-	res.Ms = time.Since(t0).Milliseconds()
+	el := time.Since(t0)
+	res.Ms, res.Us = el.Milliseconds(), el.Microseconds()
 	runtime.ReadMemStats(&m1)
 	res.Alloc = m1.TotalAlloc - m0.TotalAlloc
 	return
